@@ -1010,12 +1010,14 @@ fn trigger_update<M: AsRef<[Machine]>>(
                     "\ttrigger_update(): update timer action {:?} {:?}",
                     duration, machine
                 );
-                // get current internal timer duration, if any
-                let current =
-                    state.scheduled_internal_timer[machine.into_raw()].unwrap_or(*current_time);
-
-                // update the timer
-                if *replace || current < *current_time + *duration {
+                // update the timer if replacing, if no timer is running (also
+                // for a zero duration), or if the new expiry is later than the
+                // one of the running timer
+                let update = match state.scheduled_internal_timer[machine.into_raw()] {
+                    None => true,
+                    Some(current) => *replace || current < *current_time + *duration,
+                };
+                if update {
                     state.scheduled_internal_timer[machine.into_raw()] =
                         Some(*current_time + *duration);
                     // TimerBegin event
